@@ -40,6 +40,9 @@ class Mpo(MatrixProduct):
         shift is the a constant for H+shift
         """
         assert space in ["GS", "EX"]
+        if np.iscomplexobj(x) and not np.iscomplex(x):
+            # complex type but real value, e.g. x = -1j * evolve_dt for an imaginary evolve_dt
+            x = np.real(x)
 
         mpo = cls()
         if np.iscomplex(x):
